@@ -177,7 +177,8 @@ value-level concurrent model was built; `conc_refines_seq_partial`, `single_flig
 would compose with C01's `core_history_sound`. -/
 def C02_full_statement (E : Lts.ConcEngine) : Prop :=
   ∀ (p : Qbice.Core.Program), Qbice.Core.WF p → ∀ (evs : List E.Ev) (s : E.State), E.run (E.init p) evs = some s →
-    ∀ kv ∈ E.returned s, Qbice.Core.evalSpec p (E.inputs s) (Qbice.Core.fuelFor p) kv.1 = some kv.2
+    ∀ kv ∈ E.returned s, Qbice.Core.evalSpec p (E.inputs s) (fun k => (p[k]?).map (·.ext (fun _ => 0)))
+      (Qbice.Core.fuelFor p) kv.1 = some kv.2
 
 /-! ## what trace validation validates -/
 
